@@ -117,7 +117,7 @@ def coqc(relpath, timeout=COQ_TIMEOUT):
         berr = ensure_built(head)
         if berr:
             return False, berr[0]
-    rc, out = _sh(["timeout", str(timeout), "coqc", "-Q", ".", "Bobo", "-w", "-all", relpath], COQ,
+    rc, out = _sh(["timeout", str(timeout), "coqc", "-noglob", "-Q", ".", "Bobo", "-w", "-all", relpath], COQ,
                   timeout + 30)
     return rc == 0, out
 
@@ -200,11 +200,30 @@ def ensure_built(imports, preamble=""):
     return [] if ok else ["building %s failed: %s" % (" ".join(tg), out[-1500:])]
 
 
+def gen_gc(max_age_s=3 * 3600):
+    """generated case files of disagreeing shards are kept for inspection: drop the ones older than a few hours
+    (disk space is limited; a replay regenerates what it needs)"""
+    import time
+    now = time.time()
+    try:
+        for f in os.listdir(GEN):
+            p = os.path.join(GEN, f)
+            try:
+                if (f.startswith("cases_") or f.startswith(".cases_") or f.startswith("eval_") or f.startswith(".eval_")) \
+                        and now - os.path.getmtime(p) > max_age_s:
+                    os.unlink(p)
+            except OSError:
+                pass
+    except OSError:
+        pass
+
+
 def coq_run_cases(tag, imports, func, intype, cases, shard=300, preamble=""):
     """cases: list of (coq_input_term, expected list[int]).
     Evaluates `func input` inside Coq (vm_compute) for every case and returns
     (list of (case index, model output) for every disagreement, errors list)."""
     os.makedirs(GEN, exist_ok=True)
+    gen_gc()
     berr = ensure_built(imports, preamble)
     if berr:
         return [], berr
@@ -232,7 +251,7 @@ def coq_run_cases(tag, imports, func, intype, cases, shard=300, preamble=""):
             f.write("\n].\nEval vm_compute in mismatches (%s) cases.\n" % func)
 
     def one(name):
-        return _sh(["timeout", str(COQ_TIMEOUT), "coqc", "-Q", ".", "Bobo", "-w", "-all",
+        return _sh(["timeout", str(COQ_TIMEOUT), "coqc", "-noglob", "-Q", ".", "Bobo", "-w", "-all",
                     "Gen/%s.v" % name], COQ, COQ_TIMEOUT + 30)
 
     with ThreadPoolExecutor(max_workers=NPROC) as ex:
@@ -252,8 +271,9 @@ def coq_run_cases(tag, imports, func, intype, cases, shard=300, preamble=""):
         for idx, vals in r:
             mism.append((offsets[k] + idx, vals))
             bad_shards.add(k)
-    for k, name in enumerate(names):   # keep the sources of disagreeing shards only
-        exts = [".vo", ".vos", ".vok", ".glob", ".aux"] + ([] if (k in bad_shards or outs[k][0] != 0) else [".v"])
+    keep = set(sorted(k for k in range(len(names)) if k in bad_shards or outs[k][0] != 0)[:3])
+    for k, name in enumerate(names):   # keep the sources of (at most three) disagreeing shards only
+        exts = [".vo", ".vos", ".vok", ".glob", ".aux"] + ([] if k in keep else [".v"])
         for ext in exts:
             for p in (os.path.join(GEN, name + ext), os.path.join(GEN, "." + name + ext)):
                 if os.path.exists(p):
@@ -271,7 +291,7 @@ def coq_eval(tag, imports, expr, timeout=COQ_TIMEOUT):
     with open(os.path.join(GEN, name + ".v"), "w") as f:
         f.write("From Bobo Require Import Base.Prelude %s.\n" % imports)
         f.write("Eval vm_compute in (%s).\n" % expr)
-    rc, out = _sh(["timeout", str(timeout), "coqc", "-Q", ".", "Bobo", "-w", "-all", "Gen/%s.v" % name],
+    rc, out = _sh(["timeout", str(timeout), "coqc", "-noglob", "-Q", ".", "Bobo", "-w", "-all", "Gen/%s.v" % name],
                   COQ, timeout + 30)
     if rc != 0:
         return None, out
